@@ -128,6 +128,7 @@ template <typename B, typename V, typename S, int N> static std::string run_box(
   case 20: { B c(vec_at<V, S, N>(a, 2), vec_at<V, S, N>(a, 3)); return showb<B, V, S, N>(intersectionOf(b, c)); }
   case 21: { B c(vec_at<V, S, N>(a, 2), vec_at<V, S, N>(a, 3)); return show(disjoint(b, c)); }
   case 22: return showv<V, S, N>(center(b));
+  case 24: { B c(vec_at<V, S, N>(a, 2), vec_at<V, S, N>(a, 3)); return show(intersectionOf(b, c).empty()); }
   }
   return "nan nan nan";
 }
@@ -162,6 +163,9 @@ static std::string run_case(int op, int code, const std::vector<std::string> &a)
   } else if (op < 20) {
     DISPATCH(run_arith, (op, a))
   } else if (op < 23) {
+    DISPATCH_ND(run_box, (op, a))
+    if (code == 32) return run_box<box3fa, vec3fa, float, 3>(op, a);
+  } else if (op == 24) {
     DISPATCH_ND(run_box, (op, a))
     if (code == 32) return run_box<box3fa, vec3fa, float, 3>(op, a);
   } else if (op == 23) {
